@@ -23,12 +23,24 @@ pub struct Armed {
     pub env: Env,
     pub fired: bool,
     pub applied: u32,
+    pub limit_sets: u32,
     pub dropped: bool,
     pub panicked: Option<String>,
 }
 
 thread_local! {
     static ARMED: RefCell<Option<Armed>> = const { RefCell::new(None) };
+    /// The interpreter's limit sources and the consumer being polled, valid only while that
+    /// consumer's stream is being polled (set right before, cleared right after).
+    static LIMITS: std::cell::Cell<(*mut super::chain::Limits, usize)> = const { std::cell::Cell::new((std::ptr::null_mut(), 0)) };
+}
+
+pub fn set_limits(p: *mut super::chain::Limits, consumer: usize) {
+    LIMITS.with(|l| l.set((p, consumer)));
+}
+
+pub fn clear_limits() {
+    LIMITS.with(|l| l.set((std::ptr::null_mut(), 0)));
 }
 
 pub fn install() {
@@ -80,6 +92,9 @@ fn run(a: &mut Armed) {
                 let mut tx = v.transaction();
                 let mut recorded = 0;
                 for op in &a.ops {
+                    if matches!(op, Step::LimSet(..) | Step::LimSetIfNotEq(..)) {
+                        continue;
+                    }
                     if apply_plain(&mut tx, &mut m, op) {
                         recorded += 1;
                     }
@@ -96,7 +111,11 @@ fn run(a: &mut Armed) {
                     a.applied += 1;
                 }
             } else {
-                for op in &a.ops {
+                let ops = a.ops.clone();
+                for op in &ops {
+                    if limit_op(a, op) {
+                        continue;
+                    }
                     let mut m = a.env.borrow().contents.clone();
                     if apply_plain(v, &mut m, op) {
                         let mut w = a.env.borrow_mut();
@@ -116,6 +135,34 @@ fn run(a: &mut Armed) {
     if let Err(p) = r {
         a.panicked = Some(super::exec::panic_msg(&p));
     }
+}
+
+/// A limit write among the writer's operations: the thread owning the limit observable runs too.
+fn limit_op(a: &mut Armed, op: &Step) -> bool {
+    let (i, v, if_not_eq) = match op {
+        Step::LimSet(i, v) => (*i, *v, false),
+        Step::LimSetIfNotEq(i, v) => (*i, *v, true),
+        _ => return false,
+    };
+    let (p, consumer) = LIMITS.with(|l| l.get());
+    if p.is_null() {
+        return true;
+    }
+    // SAFETY: set by the interpreter right before it polled the stream we are inside of, from a
+    // fresh `&mut self.limits`; the interpreter touches neither until the poll has returned.
+    let limits = unsafe { &mut *p };
+    if limits.sources.is_empty() {
+        return true;
+    }
+    let i = i % limits.sources.len();
+    if !limits.sources[i].alive {
+        return true;
+    }
+    if let Some(val) = super::exec::limit_set(limits, &a.env, i, v, if_not_eq) {
+        super::exec::limit_announce(limits, i, val, Some(consumer));
+    }
+    a.limit_sets += 1;
+    true
 }
 
 fn e(v: V) -> Elem {
